@@ -5,6 +5,8 @@ import Req.Pool.H1PoolLane
 import Req.Pool.Pairing
 import Req.Pool.H2MuxLane
 import Req.Pool.H3Map
+import Req.Driver.L.C09Dump
+import Req.Driver.L.C09Hpack
 /-! Driver lanes of C09. -/
 namespace Req.Driver.L.C09
 open Req.Proto
@@ -330,6 +332,8 @@ def laneH3Map : List String → String
   | _ => "bad-op"
 
 def lanes : List (String × (List String → String)) := [
+  ("c09dumpq", Req.Driver.L.C09Dump.laneDumpQ),
+  ("c09hpack", Req.Driver.L.C09Hpack.laneHpack),
   ("c09h3map", laneH3Map),
   ("c09h2mux", laneH2Mux),
   ("c09lockset", laneLockset),
